@@ -55,6 +55,7 @@ class EvDomain(Domain):
         if n.k == 'unop' and n.op in ('*', '&'): return EvDomain.obj_name(n.n('sub'))
         if n.k == 'call' and n.ck == 'op' and n.op in ('*', '->') and n.ns('args'): return EvDomain.obj_name(n.ns('args')[0])
         if n.k == 'this': return 'this'
+        if n.k == 'call' and (n.calleeq or '') in ('std::move', 'std::forward', 'std::as_const') and n.ns('args'): return EvDomain.obj_name(n.ns('args')[0])
         return n.text()[:40]
 
     def resolve_obj(self, ex, obj, st, fr):
